@@ -398,10 +398,10 @@ func (e *Engine) addrKeys(a ssa.Value) []string {
 	case *ssa.IndexAddr:
 		switch xt := v.X.Type().Underlying().(type) {
 		case *types.Slice:
-			return []string{"A|" + e.u.sortOf(xt.Elem())}
+			return []string{e.u.arrKey(xt.Elem())}
 		case *types.Pointer:
 			if at, ok := xt.Elem().Underlying().(*types.Array); ok {
-				return []string{"A|" + e.u.sortOf(at.Elem())}
+				return []string{e.u.arrKey(at.Elem())}
 			}
 			return []string{"*"}
 		}
@@ -528,11 +528,11 @@ func (e *Engine) callEffects(f *ssa.Function, c *ssa.CallCommon) []string {
 		switch cv.Name() {
 		case "append":
 			if st, ok := c.Args[0].Type().Underlying().(*types.Slice); ok {
-				return []string{"A|" + e.u.sortOf(st.Elem())}
+				return []string{e.u.arrKey(st.Elem())}
 			}
 		case "copy":
 			if st, ok := c.Args[0].Type().Underlying().(*types.Slice); ok {
-				return []string{"A|" + e.u.sortOf(st.Elem())}
+				return []string{e.u.arrKey(st.Elem())}
 			}
 		case "delete":
 			md, mv, _, _ := e.mapKeys(c.Args[0].Type())
@@ -571,7 +571,7 @@ func (e *Engine) externalEffects(f *ssa.Function, c *ssa.CallCommon) []string {
 	case strings.HasPrefix(name, "(*bytes.Buffer)."), strings.HasPrefix(name, "fmt.Fprint"), name == "io.WriteString", name == "io.Copy":
 		return []string{"BD", "BL", "EXT"}
 	case name == "sort.Strings":
-		return []string{"A|Str"}
+		return []string{e.u.arrKey(types.Typ[types.String])}
 	case strings.HasPrefix(name, "(reflect.Value).Set"):
 		return []string{"EXT"}
 	case name == "(reflect.Value).Call":
